@@ -141,7 +141,7 @@ def setup(c):
     install.contract('spectrum.lpc', 'lpc', post_lpc, snapshots=[('x0', _snap_x)])
 
 
-KINDS = ['noise', 'tones', 'trend', 'int', 'dyn', 'ar', 'alt', 'impulse']
+KINDS = ['noise', 'tones', 'trend', 'int', 'dyn', 'ar', 'alt', 'impulse', 'sparse']
 
 
 def cases(c):
